@@ -13,7 +13,26 @@ MD_SUBDIRS = ['dtd', 'glsa', 'news', 'xml-schema', 'md5-cache',
               'install-qa-check.d']
 IGNORED_TOP = ['distfiles', 'local', 'lost+found', 'packages']
 
-content = st.text(alphabet='abcdefgh \n#=', min_size=0, max_size=40)
+# "@@big:N" stands for N bytes (files longer than the generators' read
+# buffers) without bloating the case descriptor
+content = st.one_of(
+    st.text(alphabet='abcdefgh \n#=', min_size=0, max_size=40),
+    st.text(alphabet='abcdefgh \n#=', min_size=0, max_size=40),
+    st.text(alphabet='abcdefgh \n#=', min_size=0, max_size=40),
+    st.text(alphabet='abcdefgh \n#=', min_size=0, max_size=40),
+    st.text(alphabet='abcdefgh \n#=', min_size=0, max_size=40),
+    st.text(alphabet='abcdefgh \n#=', min_size=0, max_size=40),
+    st.text(alphabet='abcdefgh \n#=', min_size=0, max_size=40),
+    st.sampled_from(['@@big:65536', '@@big:65537', '@@big:131073',
+                     '@@big:70000']))
+
+
+def expand(c):
+    i = c.find('@@big:')
+    if i < 0:
+        return c
+    n = int(c[i + 6:].rstrip('!'))
+    return c[:i] + 'x' * n
 
 
 @st.composite
@@ -152,7 +171,7 @@ def materialize(r, root):
         full = os.path.join(root, p)
         os.makedirs(os.path.dirname(full), exist_ok=True)
         with open(full, 'w') as f:
-            f.write(c)
+            f.write(expand(c))
 
 
 @st.composite
@@ -203,7 +222,7 @@ def apply_edits(root, ops):
         if op['op'] == 'write':
             os.makedirs(os.path.dirname(full), exist_ok=True)
             with open(full, 'w') as f:
-                f.write(op['c'])
+                f.write(expand(op['c']))
         elif op['op'] == 'delete':
             if os.path.exists(full):
                 os.unlink(full)
